@@ -21,7 +21,7 @@ func defC06(mode int) *ph.Def {
 			{Name: "opt", Kind: ph.StrOpt, Aliases: []string{"o"}, DefS: "OD"},
 			{Name: "nb", Kind: ph.Bool, DefB: true, Var: true, Aliases: []string{"n", "ä"}}, // é and ä share their first byte
 		},
-		Cmds: []*ph.CmdDef{{Name: "c"}, {Name: "w", Unset: true}},
+		Cmds: []*ph.CmdDef{{Name: "c"}, {Name: "w", Unset: true, Opts: []ph.OptDef{{Name: "str", Kind: ph.Str, DefS: "wrapped-default"}, {Name: "int", Kind: ph.Int, DefI: -1}}}}, // the wrapper inherits nothing and declares options of its own under the same names
 	}}
 }
 
@@ -64,6 +64,9 @@ func c06Subst(pc *parserCase, o *ph.Outcome, ex *ph.Expect) ([]string, int) {
 		return nil, 0
 	}
 	for i, t := range pc.Argv {
+		if t == "w" && ex.Consumed[i] {
+			break // behind the wrapper the names belong to the wrapper's own options, which have no aliases
+		}
 		key, isOpt := c06Key(t)
 		if !isOpt || !ex.Consumed[i] {
 			continue // only occurrences that name the option at the level where they stand
@@ -225,12 +228,13 @@ func init() {
 	register(&Check{
 		ID:        "C12",
 		QuickSecs: 60, ThoroSecs: 300,
-		Rule: "complete product: 7 option kinds (bool, string, int, float64 and the optional-value forms) x 2-3 defaults x *Var or pointer form x 19 environment texts (unset, empty, valid, invalid, mixed case booleans, padded, equal to default, equal to the command-line value) x 9 command-line forms (absent, --n=v, --n v, -n v, bare --n, twice, inside a command, before an UnsetOptions wrapper command) x 3 modes x {option declared at the root, option declared on a command, variable set after New() but before the declaration}; " +
+		Rule: "complete product: 7 option kinds (bool, string, int, float64 and the optional-value forms) x 2-3 defaults x *Var or pointer form x 29 environment texts (unset, empty, valid, invalid, mixed case booleans, padded, equal to default, equal to the command-line value) x 9 command-line forms (absent, --n=v, --n v, -n v, bare --n, twice, inside a command, before an UnsetOptions wrapper command) x 3 modes x {option declared at the root, option declared on a command, variable set after New() but before the declaration}; " +
 			"value, Called and CalledAs compared with the three-way precedence rule of the reference model, and again after a second Parse of an empty command line on the same object (nothing may change); distinct_nontrivial = distinct in-domain cases",
 		Assume: []string{"other environment texts are not covered; invalid numeric environment text leaves Called unspecified (zone U11) and only the value is compared"},
 		Run: func(c *RunCtx) {
 			res := c.Res
-			envs := []string{"\x00unset", "", "true", "false", "TRUE", "False", "tRuE", "1", "0", " 1", "1.5", "abc", "42", "-3", "1e3", "yes", "D", "cli", "7"}
+			envs := []string{"\x00unset", "", "true", "false", "TRUE", "False", "tRuE", "1", "0", " 1", "1.5", "abc", "42", "-3", "1e3", "yes", "D", "cli", "7",
+				"010", "08", "0x1f", "1_000", "0b101", "-017", "+5", "5\n", "\ttrue", " "} // zero-padded / prefixed numerals, padded texts, blanks only
 			type kd struct {
 				k    ph.Kind
 				defs []ph.OptDef
